@@ -8,10 +8,10 @@
          returned indices, the sets of rejected things) that does not use Model.v's queue, pool
          or syncer, and
      (b) compares the implementation's answers with the model's.
-   Depends on Model.v only. *)
+   Depends on Model.v and Spec.v (definitions only, no proofs). *)
 From Coq Require Import String List ZArith NArith Bool.
 From TM Require Import Common.Hex Generated.Consts.
-From TM Require Export C14.Model.
+From TM Require Export C14.Model C14.Spec.
 Import ListNotations.
 Open Scope Z_scope.
 
@@ -466,16 +466,27 @@ Definition sm0 : smon := mkSM mon0 None 0 false [] None false.
 
 (* ------------------------------------------------------------------ state provider cases *)
 
-Definition lbT := (Z * Z * Z * Z * string * string * string * string * string)%type.
+Definition lbT := (Z * Z * Z * Z * string * string * string * string * string * string)%type.
 Definition mk_lb (t : lbT) : lightblock :=
-  let '(h, tm, vb, va, ah, rs, bid, cm, vals) := t in
-  mkLB h tm vb va (unhex ah) (unhex rs) (unhex bid) (unhex cm) (unhex vals).
+  let '(h, tm, vb, va, ah, rs, bid, cm, vals, ch) := t in
+  mkLB h tm vb va (unhex ah) (unhex rs) (unhex bid) (unhex cm) (unhex vals) (unhex ch).
 
 (* oracle: heights the light client verifies (others fail) *)
 Fixpoint lc_find (t : list lbT) (h : Z) : res lightblock :=
   match t with
   | [] => RFail
   | e :: r => if lb_height (mk_lb e) =? h then ROk (mk_lb e) else lc_find r h
+  end.
+
+(* the consensus_params stub: requested height -> answer (label = BlockHeight, hash of the
+   params served); None / not listed = error (or params ValidateConsensusParams refuses) *)
+Definition rpcT := (Z * option (Z * string))%type.
+Fixpoint rpc_find (t : list rpcT) (req : Z) : option (Z * bytes) :=
+  match t with
+  | [] => None
+  | (r, a) :: rest =>
+    if r =? req then match a with Some (l, p) => Some (l, unhex p) | None => None end
+    else rpc_find rest req
   end.
 
 Definition stateT := (Z * Z * Z * Z * Z * string * string * string * string * string * string * Z * string * Z)%type.
@@ -488,6 +499,11 @@ Definition state_eqb (a : sstate) (t : stateT) : bool :=
   && bytes_eqb (st_nextvals a) (unhex nv) && (st_lhvc a =? lhvc)
   && bytes_eqb (st_params a) (unhex pr) && (st_lhcpc a =? lhcpc).
 
+Definition mk_state_of (t : stateT) : sstate :=
+  let '(ini, vb, va, lh, lt, lbid, ah, rs, lv, v, nv, lhvc, pr, lhcpc) := t in
+  mkState ini vb va lh lt (unhex lbid) (unhex ah) (unhex rs) (unhex lv) (unhex v) (unhex nv) lhvc
+          (unhex pr) lhcpc.
+
 (* ------------------------------------------------------------------ cases *)
 
 Inductive case :=
@@ -497,10 +513,11 @@ Inductive case :=
 | CPool (tbl : list snapT) (ops : list popT) (obs : list pobsT)
 (* SyncAny: stub state provider table, time line *)
 | CSync (prov : list provT) (tl : list item)
-(* lightClientStateProvider over a real light client: verified blocks available, consensus
-   params hash served for height h+1 (None: RPC fails / hash check fails), initial height,
-   queried height; AppHash / Commit / State answers (code 0 ok, 1 error) *)
-| CProv (blocks : list lbT) (params : option string) (initial h : Z)
+(* lightClientStateProvider over a real light client: the chain's blocks (what an honest light
+   client verifies), the answers of the consensus_params stub per requested height, initial
+   height, queried height, (ChainID of the returned state, chain id of the chain);
+   AppHash / Commit / State answers (code 0 ok, 1 error) *)
+| CProv (blocks : list lbT) (rpc : list rpcT) (initial h : Z) (ids : string * string)
         (apphash : Z * string) (cm : Z * string) (st : Z * stateT).
 
 Definition check (c : case) : verdict :=
@@ -534,16 +551,24 @@ Definition check (c : case) : verdict :=
                    | _ => true end
               | None => outcome_code (s_mode g) =? -1
               end) 43 ])
-  | CProv blocks params initial h (ac, ah) (cc, cm) (sc, st) =>
+  | CProv blocks rpc initial h (id_st, id_chain) (ac, ah) (cc, cm) (sc, st) =>
     let lc := lc_find blocks in
-    let cp := fun _ : Z => match params with Some p => Some (unhex p) | None => None end in
+    let cp := lrpc_params lc (rpc_find rpc) in
     let pv := lc_provider lc cp initial in
+    let stm := mk_state_of st in
     first_of [
       (* every field handed to the node is the projection of a verified block *)
       viol (negb (ac =? 0) || match lc (to_int64 (u64 (h + 1))) with ROk b => bytes_eqb (lb_apphash b) (unhex ah) | _ => false end) 14;
+      viol (negb (ac =? 0) || spec_apphash_b lc h (unhex ah)) 14;
       viol (negb (cc =? 0) || match lc (to_int64 h) with ROk b => bytes_eqb (lb_commit b) (unhex cm) | _ => false end) 15;
+      viol (negb (cc =? 0) || spec_commit_b lc h (unhex cm)) 15;
       viol (negb (sc =? 0) || match lc_state lc cp initial h with ROk s => state_eqb s st | _ => false end) 16;
+      (* the specification of Spec.v (independent of the model of State()) *)
+      viol (negb (sc =? 0) || (spec_state_b lc initial h stm && bytes_eqb (unhex id_st) (unhex id_chain))) 17;
       mism (match pv_apphash pv h with ROk a => (ac =? 0) && bytes_eqb a (unhex ah) | _ => negb (ac =? 0) end) 51;
       mism (match pv_commit pv h with ROk a => (cc =? 0) && bytes_eqb a (unhex cm) | _ => negb (cc =? 0) end) 52;
-      mism (match pv_state pv h with ROk a => (sc =? 0) && state_eqb a st | _ => negb (sc =? 0) end) 53 ]
+      (* the implementation is the transcribed State() or the one with the F66 repair (they
+         differ only when the stub labels an answer with another height than the requested) *)
+      mism ((match pv_state pv h with ROk a => (sc =? 0) && state_eqb a st | _ => negb (sc =? 0) end)
+            || (match lc_state_fixed lc cp initial h with ROk a => (sc =? 0) && state_eqb a st | _ => negb (sc =? 0) end)) 53 ]
   end.
